@@ -1,7 +1,8 @@
 (* Properties/C06.v — join: exact row combinations, collision-free names, all columns reachable. *)
 From Coq Require Import List String NArith ZArith Bool.
 From PDT Require Import Base.StableSort Model.Dtype Model.Value Model.Ops Model.Expr Model.RefSem
-     Proofs.JoinUnionLemmas.
+     Model.SqlCompile Proofs.JoinUnionLemmas Proofs.SqlCompileLemmas.
+From PDTGen Require Import Catalogue.
 Import ListNotations.
 Open Scope list_scope.
 
@@ -36,6 +37,37 @@ Theorem join_visible_columns : forall l r on how,
   sel (do_join l r on how) = sel l ++ sel r /\ group (do_join l r on how) = [].
 Proof. exact join_visible_columns_proof. Qed.
 Print Assumptions join_visible_columns.
+
+(* SQL, inner and cross joins: the transcription of the Join branch of SqlImpl.compile_ast - FROM l JOIN r ON
+   <the condition with the definitions of both operands inlined>, the WHERE predicates of the right operand
+   appended to those of the left, select lists concatenated - denotes the reference table for all data.
+   Operands: pipelines of the flat fragment that are plain SELECT .. FROM .. WHERE (computed columns,
+   filters, renames, hidden columns, unions, earlier joins); any verb of the fragment may follow (filters,
+   window functions, summarize, arrange, slice).  The proof needs that the operands share no column identity:
+   rows of the reference semantics carry exactly the uids their pipeline mentions (Proofs/RefKeys.ref_keys) and
+   a compiled query reads only its own FROM columns (compile_base), so neither side shadows the other. *)
+Theorem sql_inner_join_is_the_reference : forall d l r on c,
+  compile (Join l r on JInner) = Some c -> flat_ok (Join l r on JInner) = true ->
+  sem_query d c = export_ref (do_join (sem_ref d l) (sem_ref d r) on JInner).
+Proof. intros d l r on c C F. apply (sql_compile_correct_proof d (Join l r on JInner) c C F). Qed.
+Print Assumptions sql_inner_join_is_the_reference.
+
+(* non-vacuity: computed columns and filters on both sides, an inequality in the condition, a summarize after *)
+Example inner_join_example :
+  let d := [("l"%string, [[VInt 1; VInt 10]; [VInt 2; VInt 20]; [VNull; VInt 30]; [VInt 2; VInt 40]]);
+            ("r"%string, [[VInt 2; VInt 5]; [VInt 2; VInt 50]; [VInt 3; VInt 1]; [VNull; VInt 2]])] in
+  let l := Filter (Mutate (Source "l" [("k"%string, 1%N); ("x"%string, 2%N)])
+                          [("y"%string, 3%N, EFn Op_add [ECol 2%N; ELit (VInt 1)] false [] [])])
+                  [EFn Op_greater_than [ECol 3%N; ELit (VInt 15)] false [] []] in
+  let r := Mutate (Source "r" [("k2"%string, 4%N); ("z"%string, 5%N)])
+                  [("w"%string, 6%N, EFn Op_mul [ECol 5%N; ELit (VInt 2)] false [] [])] in
+  let j := Join l r (EFn Op_bool_and [EFn Op_equal [ECol 1%N; ECol 4%N] false [] [];
+                                      EFn Op_less_than [ECol 6%N; ECol 3%N] false [] []] false [] []) JInner in
+  flat_ok j = true
+  /\ flat_ok (Summarize (GroupBy j [1%N] false) [("n"%string, 9%N, EFn Op_count_star [] false [] [])]) = true
+  /\ f_rows (export_ref (sem_ref d j)) = [[VInt 2; VInt 20; VInt 21; VInt 2; VInt 5; VInt 10]; [VInt 2; VInt 40; VInt 41; VInt 2; VInt 5; VInt 10]]
+  /\ option_map (fun c => f_rows (sem_query d c)) (compile j) = Some (f_rows (export_ref (sem_ref d j))).
+Proof. vm_compute. repeat split; reflexivity. Qed.
 
 Example full_join_example :
   let d := [("l"%string, [[VInt 1]; [VNull]; [VInt 2]]); ("r"%string, [[VInt 2]; [VInt 2]; [VInt 3]; [VNull]])] in
